@@ -468,6 +468,15 @@ func (a *w3Analysis) retention(files []*w3File) {
 		}
 		planted = append(planted, w3Planted{path: filepath.Join(root, "cam", f.name), segment: true, owner: "cam", start: st.Truncate(time.Microsecond), kind: "recorded"})
 	}
+	// a path that sorts before all the others and holds fresh segments only: nothing of it expires,
+	// which must not keep the cleaner from doing the other paths
+	if rng.Intn(2) == 0 {
+		confs["aaa"] = mk("aaa", dCam)
+		delOf["aaa"] = dCam
+		for _, age := range []time.Duration{dCam / 8, dCam / 4} {
+			plant("aaa", now0.Add(-age).Truncate(time.Microsecond), "", "segment", true)
+		}
+	}
 	for _, owner := range []string{"cam", "cam2", "cam/sub", "r1", "r22", "r5", "r7", "other"} {
 		d := delOf[owner]
 		if d <= 0 {
